@@ -81,6 +81,7 @@ StepOk(c, r) ==
   /\ (c = 10 /\ ~InParams(st)) => (r.st.tag = IF st.tag = "GotRipStart" THEN "GotRipStart" ELSE "Default")   \* after LF: text, or still "!"
   /\ (InParams(st) /\ InParams(r.st) /\ c \notin {92, 13, 10}) => (r.st.ps = st.ps + 1 /\ r.st.cmd = st.cmd)   \* one parameter character
   /\ (r.st.tag = "ReadParams" /\ ~InParams(st)) => (r.st.ps = 0 /\ r.st.hc /\ st.tag = "ReadCommand")        \* start_command
+  /\ (r.fed # <<>>) => (r.st.tag = "Default" /\ r.exec = <<>> /\ r.fed[Len(r.fed)] = c)   \* text is handed over only in / into state Default
   /\ (~r.st.hc /\ st.hc) => Len(r.exec) = 1                                      \* a command leaves only by being executed
 StepInv == \A c \in Tokens : StepOk(c, RipStep(st, c))
 \* two line ends always lead back to text (or to a pending "!")
